@@ -198,9 +198,10 @@ def r6(ctx):
                         mo = ops["moves"]
                         if mo.get("k") in ("copy", "move"):
                             data |= k2.origins(P, body, mo["p"]["l"])
+            mask_names = {l["n"] for l in body["locals"][1:body["argc"] + 1] if l["ty"] == "chess_bitboard::BitBoard"}
             def mentions_mask(os, depth=0):
                 for o in os:
-                    if o == ("param", "mask"):
+                    if o[0] == "param" and o[1] in mask_names:
                         return True
                     if o[0] == "call" and depth < 6 and any(mentions_mask(a, depth + 1) for a in o[2]):
                         return True
@@ -208,7 +209,7 @@ def r6(ctx):
             by_data = mentions_mask(data)
             by_guard = False
             for d, taken, a in k2.guards_of(P, k, bi):
-                if "'mask'" in str(d):
+                if any(f"'{mn}'" in str(d) for mn in mask_names):
                     by_guard = True
             ctx.ob(f"push in {T.short(k)[:60]}#{sum(1 for b_, _ in pushes if b_ < bi)}", by_data or by_guard,
                    f"{k}: an entry is pushed whose destinations do not depend on the destination mask (neither through data nor through a guard): legals_masked(m) would "
@@ -225,7 +226,7 @@ def r7(ctx):
     c = cfg_of(body)
     wm = k2.assigns_to_field(P, key, MG, "mask")
     wi = k2.assigns_to_field(P, key, MG, "index")
-    ok_m = any(k2.describe_operand(P, body, s["r"]["o"]) == ("place", "mask", ()) and (b == 0 or c.postdominates(b, 0)) for b, s in wm if s["r"].get("k") == "use")
+    ok_m = any(k2.describe_operand(P, body, s["r"]["o"]) == ("place", "a1", ()) and (b == 0 or c.postdominates(b, 0)) for b, s in wm if s["r"].get("k") == "use")
     ok_i = any(k2.describe_operand(P, body, s["r"]["o"]) == ("int", 0, "usize") and (b == 0 or c.postdominates(b, 0)) for b, s in wi if s["r"].get("k") == "use")
     ctx.ob("set_mask stores mask", ok_m, "set_mask does not unconditionally store its argument into self.mask", site=body.get("def_span"))
     ctx.ob("set_mask rewinds", ok_i, "set_mask does not unconditionally reset self.index to 0", site=body.get("def_span"))
@@ -257,7 +258,7 @@ def r8(ctx):
         if lf.ret == T.TRUE:
             calls = [c for c in lf.trace if c[0] == "call"]
             eqs = [t for t, v in lf.cond if v == 1 and "source" in T.show(t) and "src" in T.show(t)]
-            ok = len(calls) == 1 and calls[0][2][1] == ("field", ("param", 1, "chess_move"), "dest") and bool(eqs)
+            ok = len(calls) == 1 and calls[0][2][1] == ("field", ("param", 1, "a1"), "dest") and bool(eqs)
     ctx.ob("remove_move effect", ok, "remove_move does not subtract chess_move.dest from the entry whose src equals chess_move.source", site=body.get("def_span"))
 
 
